@@ -87,3 +87,8 @@ pub mod num {
 /// u128::sqrt (num::integer::Roots): floor of the square root
 #[verifier::external_body]
 pub fn u128_sqrt(x: u128) -> (r: u128) ensures (r as int) * (r as int) <= x as int, (x as int) < (r as int + 1) * (r as int + 1) { unimplemented!() }
+/// num::integer::Roots::sqrt on u128 (method syntax): the integer square root, a function of its argument (A-NUM)
+pub uninterp spec fn spec_isqrt(x: int) -> int;
+pub broadcast axiom fn axiom_isqrt(x: int) requires x >= 0 ensures (#[trigger] spec_isqrt(x)) >= 0, spec_isqrt(x) * spec_isqrt(x) <= x, x < (spec_isqrt(x) + 1) * (spec_isqrt(x) + 1);
+pub trait RootsExt { fn sqrt(&self) -> (r: u128); }
+impl RootsExt for u128 { #[verifier::external_body] fn sqrt(&self) -> (r: u128) ensures r as int == spec_isqrt(*self as int) { unimplemented!() } }
